@@ -43,7 +43,7 @@ def oracle(inp):
         return 'add_check_digit: %r -> %r' % (digits_only, full)
     if not validates(full, opt):
         return 'valid number rejected: validate_check_digit(%r) rejected (optimize=%s)' % (full, opt)
-    if inp.get('deep', True):
+    if inp.get('deep', True) and len(full) <= 200:      # substitutions / transpositions of very long numbers: check digit and validation only
         for i in range(len(full)):
             for d in '0123456789':
                 if d != full[i]:
@@ -75,6 +75,9 @@ def cases(tier, rng):
         if k % 3 == 0:
             pos = rng.randint(0, n)
             s = s[:pos] + rng.choice(' -') + s[pos:]
+        elif k % 3 == 1:
+            sep = rng.choice(' -')
+            s = sep.join(s[i:i + 4] for i in range(0, n, 4))          # grouped in fours, as printed on cards
         yield {'s': s, 'deep': k % 10 == 0}
 
 
